@@ -17,7 +17,7 @@ Definition mask := option (list bool).
 
 (* columns selected by the mask come from [n], the others stay as in [o];
    the result is as wide as [o] *)
-Fixpoint merge_l (m : list bool) (n o : row) : row :=
+Fixpoint merge_l (m : list bool) (n o : row) {struct o} : row :=
   match o with
   | [] => []
   | ov :: o' =>
@@ -31,7 +31,7 @@ Definition merge (m : mask) (n o : row) : row :=
   match m with None => n | Some l => merge_l l n o end.
 
 (* equality on the masked columns *)
-Fixpoint meq_l (m : list bool) (a b : row) : bool :=
+Fixpoint meq_l (m : list bool) (a b : row) {struct a} : bool :=
   match a, b with
   | [], [] => true
   | x :: a', y :: b' =>
